@@ -230,7 +230,8 @@ int antispoof_ingress(struct __sk_buff *skb) {
 		} else if (binding && binding->ipv4_valid) {
 			/* Strict mode: exact match required */
 			if (mode == ANTISPOOF_STRICT || mode == ANTISPOOF_LOG_ONLY) {
-				allowed = (src_ip == binding->ipv4_addr);
+				/* the binding holds the host-order integer written by userspace */
+				allowed = (bpf_ntohl(src_ip) == binding->ipv4_addr);
 			}
 		}
 
